@@ -18,7 +18,8 @@ from ..dataflow import Flow, chain, call_name
 from ..absint import Interp
 from ..poly import Poly, le, lt, eq, entails
 from ..util import calls_in, qual, returns_of, has_fact
-from ..terms import Terms, reify, plain, is_none, mk_cmp, show, match, V, ANY
+from ..terms import Terms, reify, plain, is_none, mk_cmp, show, match, V, ANY, \
+    decide_ites
 
 MOD = "rig.machine_control.packets"
 
@@ -288,7 +289,7 @@ def r3_scp(program, folder, rep):
         hyps = [(is_none(("attr", SELF, "arg%d" % (k + 1))), not pr)
                 for k, pr in enumerate(present)]
         H = T.under(*hyps)
-        parts = flat(H.term(rets[0].value, rn))
+        parts = flat(decide_ites(H.term(rets[0].value, rn), hyps))
         want = [("<2H", [("attr", SELF, "cmd_rc"), ("attr", SELF, "seq")])]
         for k, pr in enumerate(present):
             if pr:
@@ -462,6 +463,10 @@ def r3_scp_payload(program, folder, rep):
     body[off:] with 0 <= off <= len(body) (no byte of the body is dropped
     because the offset overshoots)."""
     fn = program.get(MOD + ":SCPPacket.from_bytestring")
+    if any(getattr(h, "_virtual", False) for h in ast.walk(fn)):
+        raise AnalysisError("SCPPacket.from_bytestring counts the argument "
+                            "words in a helper the reference tree did not "
+                            "have: the interpreter does not follow it")
     inst = qual(fn)
     it0 = Interp(fn)
     fl0 = it0.flow
